@@ -9,7 +9,8 @@ RULE = ("the updater's operation sequence (add_rcu, add_tail_rcu, del_rcu at eve
         "scheduling points; removed and replaced nodes are freed one specification grace period later; oracles: traversal terminates, "
         "visits nodes in list order, never both a node and its replacement, every node present during the whole traversal exactly once, "
         "only nodes present at some instant, payload initialised, no access to freed nodes; non-trivial = reader and updater touched "
-        "the same granule")
+        "the same granule; in addition the control-flow graph of 5 polling readers compiled at -O2 and -O3 from the list headers is "
+        "explored structurally: every cycle must contain a memory load (no forward-pointer load hoisted out of a polling loop)")
 ASSUMPTIONS = ["specification flavor", "x86-TSO", "one updater at a time (documented requirement)"]
 DEADLINE = {"quick": 170, "thorough": 1700}
 
@@ -26,6 +27,22 @@ def jobs(tier):
         J.append(Job("rculist", "list", "2,0,0,0", dict(hlist=hl, ninit=2, steps=2 if q else 3, readers=1, walks=2), workers=8))
         J.append(Job("rculist", "list", "1,0,0,0" if q else "2,0,0,0", dict(hlist=hl, ninit=2, steps=3 if q else 4, readers=1, walks=1), workers=8))
     return J
+
+
+def extra_violations(bdir):
+    """compiler level: the traversal macros must keep one forward-pointer load per step in optimised client code"""
+    import json, os, subprocess, sys
+    from checks import common
+    r = subprocess.run([sys.executable, os.path.join(common.VERIF, "e4", "c18_loops.py"), common.REPO, os.path.join(bdir, "e4")],
+                       stdout=subprocess.PIPE, stderr=subprocess.PIPE, text=True)
+    try:
+        res = json.loads(r.stdout)
+    except Exception:  # noqa
+        return [("INTERNAL: c18_loops.py produced no result: %s %s" % (r.stdout[-200:], r.stderr[-200:]), "")], {}
+    v = [(t, os.path.join(common.VERIF, "e4", "c18_probes.c")) for t in res["violations"]]
+    if res.get("internal"):
+        v.append(("INTERNAL: " + res["internal"], ""))
+    return v, {"compiled_polling_probes": res["functions"], "cfg_cycles_checked": res["cycles"]}
 
 
 LEVEL_TEXT = ("Exhaustive enumeration of updater operation sequences and, within preemption / store-delay budgets, of all interleavings of "
